@@ -17,7 +17,10 @@ AND the plain build - is run on every case under harness/ioshim.c with the
 phase-marker hook (tools/sbeppcrun.py conventions); the recorded run (phase
 markers, system calls on input and output directory, sanitizer report as a
 `ub` event, diagnostic, wait status, files left) must be a behaviour of
-spec/SbeppcTrace.tla.  The repository's own schemas (test/sbeppc_errors/**,
+spec/SbeppcTraceC09.tla (= SbeppcTrace for runs that exit 0, validated against
+the plan formed by their own output calls; plus the rules for a run without a
+plan: output calls only after `named`, status # 0 after output calls and files
+left behind only if one of those calls failed).  The repository's own schemas (test/sbeppc_errors/**,
 test/schemas, test/naming_test) go through the same machinery.
 
 Python computes no expectation: it runs, records, names the class of a run TLC
@@ -99,6 +102,114 @@ def case_head(case):
 
 # ---------------------------------------------------------------- runner ---
 
+# harness/ioshim.c cannot name (and therefore does not log) a call whose absolute path is longer than PATH_MAX - e.g.
+# the output file of a type with a 5000-character name.  This second, tiny interposer (loaded before the shim) logs exactly
+# those calls, in the shim's format, with k = 0; run_files() gives them their number.  It injects nothing.
+LONGPATH_SRC = r'''
+#define _GNU_SOURCE
+#include <dlfcn.h>
+#include <errno.h>
+#include <fcntl.h>
+#include <limits.h>
+#include <stdarg.h>
+#include <stdio.h>
+#include <stdlib.h>
+#include <string.h>
+#include <sys/stat.h>
+#include <unistd.h>
+static const char *cls_of(const char *path, char **norm)
+{
+    /* same lexical normalisation as ioshim.c, without its length limit */
+    char cwd[PATH_MAX];
+    if (!path) return 0;
+    if (path[0] == '/' || !getcwd(cwd, sizeof cwd)) return 0;    /* (ioshim.c cuts an absolute path short but logs it) */
+    size_t n = strlen(path) + strlen(cwd) + 3;
+    if (n - 1 <= PATH_MAX) return 0;                   /* ioshim.c sees this one */
+    char *full = malloc(n), *out = malloc(n);
+    if (!full || !out) return 0;
+    if (path[0] == '/') strcpy(full, path); else { strcpy(full, cwd); strcat(full, "/"); strcat(full, path); }
+    size_t o = 0;
+    for (const char *s = full; *s;) {
+        while (*s == '/') s++;
+        if (!*s) break;
+        const char *e = s;
+        while (*e && *e != '/') e++;
+        size_t len = (size_t)(e - s);
+        if (len == 1 && s[0] == '.') { }
+        else if (len == 2 && s[0] == '.' && s[1] == '.') { while (o > 0 && out[o - 1] != '/') o--; if (o > 0) o--; }
+        else { out[o++] = '/'; memcpy(out + o, s, len); o += len; }
+        s = e;
+    }
+    out[o] = 0;
+    free(full);
+    const char *names[2] = {"VERIF_IO_ROOT", "VERIF_IO_INROOT"};
+    const char *cls[2] = {"out", "in"};
+    for (int i = 0; i < 2; i++) {
+        const char *r = getenv(names[i]);
+        if (r && r[0] == '/') {
+            size_t rn = strlen(r);
+            if (strncmp(out, r, rn) == 0 && (out[rn] == '/' || out[rn] == 0)) { *norm = strdup(out[rn] ? out + rn + 1 : "."); free(out); return cls[i]; }
+        }
+    }
+    free(out);
+    return 0;
+}
+static void note(const char *cls, const char *call, const char *rel, long res, int err)
+{
+    const char *lp = getenv("VERIF_IO_LOG");
+    if (!lp) return;
+    int (*ropen)(const char *, int, ...) = dlsym(RTLD_NEXT, "open");
+    int fd = ropen(lp, O_WRONLY | O_APPEND | O_CREAT | O_CLOEXEC, 0644);
+    if (fd < 0) return;
+    size_t n = strlen(rel) * 6 + 256;
+    char *line = malloc(n), *q = malloc(n);
+    size_t o = 0;
+    for (const unsigned char *s = (const unsigned char *)rel; *s; s++) {
+        if (*s == '"' || *s == '\\') { q[o++] = '\\'; q[o++] = (char)*s; }
+        else if (*s < 0x20) o += (size_t)sprintf(q + o, "\\u%04x", *s);
+        else q[o++] = (char)*s;
+    }
+    q[o] = 0;
+    int len = snprintf(line, n, "{\"ev\":\"sys\",\"cls\":\"%s\",\"call\":\"%s\",\"path\":\"%s\",\"k\":0,\"res\":%ld,\"errno\":%d,\"len\":0,\"fd\":-1,\"inj\":\"\"}\n",
+                       cls, call, q, res, err);
+    ssize_t (*rwrite)(int, const void *, size_t) = dlsym(RTLD_NEXT, "write");
+    if (len > 0) { ssize_t w = rwrite(fd, line, (size_t)len); (void)w; }
+    int (*rclose)(int) = dlsym(RTLD_NEXT, "close");
+    rclose(fd);
+    free(line); free(q);
+}
+#define MODE mode_t mode = 0; if (flags & (O_CREAT | O_TMPFILE)) { va_list ap; va_start(ap, flags); mode = (mode_t)va_arg(ap, int); va_end(ap); }
+#define OPENLIKE(NAME) int NAME(const char *path, int flags, ...) { MODE; int (*real)(const char *, int, ...) = dlsym(RTLD_NEXT, #NAME); \
+    char *rel = 0; const char *c = cls_of(path, &rel); int r = real(path, flags, mode); int e = errno; \
+    if (c) { note(c, "open", rel, r, r < 0 ? e : 0); free(rel); } errno = e; return r; }
+OPENLIKE(open)
+OPENLIKE(open64)
+#define FOPENLIKE(NAME) FILE *NAME(const char *path, const char *m) { FILE *(*real)(const char *, const char *) = dlsym(RTLD_NEXT, #NAME); \
+    char *rel = 0; const char *c = cls_of(path, &rel); FILE *f = real(path, m); int e = errno; \
+    if (c) { note(c, "open", rel, f ? fileno(f) : -1, f ? 0 : e); free(rel); } errno = e; return f; }
+FOPENLIKE(fopen)
+FOPENLIKE(fopen64)
+int mkdir(const char *path, mode_t mode) { int (*real)(const char *, mode_t) = dlsym(RTLD_NEXT, "mkdir");
+    char *rel = 0; const char *c = cls_of(path, &rel); int r = real(path, mode); int e = errno;
+    if (c) { note(c, "mkdir", rel, r, r < 0 ? e : 0); free(rel); } errno = e; return r; }
+'''
+
+
+def build_longpath():
+    cmd = ["gcc", "-O1", "-shared", "-fPIC"]
+    out = os.path.join(vlib.ensure_dir(os.path.join(vlib.CACHE, "c09")), "longpath-%s.so" % vlib.sha(" ".join(cmd), LONGPATH_SRC))
+    if os.path.exists(out):
+        return out
+    src = out[:-3] + ".c"
+    vlib.write(src, LONGPATH_SRC)
+    tmp = out + ".tmp%d" % os.getpid()
+    p = subprocess.run(cmd + [src, "-o", tmp, "-ldl"], stdout=subprocess.PIPE, stderr=subprocess.STDOUT, text=True)
+    if p.returncode != 0:
+        raise vlib.InfraError("the long-path interposer does not compile:\n" + p.stdout[-3000:])
+    os.replace(tmp, out)
+    return out
+
+
 _asan_lib = {}
 
 
@@ -115,6 +226,22 @@ def san_env(binary, shim):
     env = {"ASAN_OPTIONS": ASAN_OPTS + ("" if lib else ":verify_asan_link_order=0"), "UBSAN_OPTIONS": UBSAN_OPTS}
     env["LD_PRELOAD"] = (lib + ":" + shim) if lib else shim
     return env
+
+
+def renumber(logged):
+    """calls logged by the long-path interposer (k = 0) take their place in the numbering of their class"""
+    if not any(e.get("ev") == "sys" and e["k"] == 0 for e in logged):
+        return logged
+    shift = {"in": 0, "out": 0}
+    for e in logged:
+        if e.get("ev") == "sys":
+            if e["k"] == 0:
+                shift[e["cls"]] += 1
+                prev = [x["k"] for x in logged[:logged.index(e)] if x.get("ev") == "sys" and x["cls"] == e["cls"]]
+                e["k"] = (prev[-1] if prev else 0) + 1
+            else:
+                e["k"] += shift[e["cls"]]
+    return logged
 
 
 # (with allocator_may_return_null ASan only WARNS about an allocation it refuses - the program then sees a null /
@@ -228,7 +355,7 @@ def run_files(binary, kind, files, argv_tokens, workdir, run_id, schema, asuser=
     shim, hook, event list), with what C09 needs on top: files given as bytes,
     a free command line, an address-space limit, an unprivileged user for the
     permission fixtures, sanitizer reports as `ub` events.  cwd = in/."""
-    shim = sr.build_shim()
+    shim = build_longpath() + ":" + sr.build_shim()
     rd = vlib.fresh_dir(os.path.join(workdir, run_id))
     fx = Fixture(rd)
     os.makedirs(fx.ind)
@@ -322,6 +449,7 @@ def run_files(binary, kind, files, argv_tokens, workdir, run_id, schema, asuser=
                     logged.append(json.loads(line))
                 except ValueError:
                     raise vlib.InfraError("unparsable shim/hook line in %s: %r" % (logp, line))
+    logged = renumber(logged)
     # what is left where the run was told to write (its own input files are not output)
     if outd == fx.ind:
         # output directory = input directory: calls on the case's input files belong to class "in"
@@ -451,11 +579,31 @@ def validate(batch):
         raise vlib.InfraError("SbeppcTraceC09 accepted the trace but printed rejections: %s" % rej[:2])
     if not acc and not rej:
         raise vlib.InfraError("SbeppcTraceC09 did not consume %s and named no run (exit %s):\n%s" % (tp, r.exit, r.raw[-2500:]))
-    ids = {x.id for x in runs}
+    # A Plan line TLC does not take (the run's own output calls are not a well-formed emission: SbeppcTrace!PlanOK) is
+    # printed under the id of whatever run came before, and so is the Reset line of each run that refers to that plan:
+    # attribute them by line number (the layout of the trace is ours: plans first, then the episodes in order).
+    lines = sr.trace_lines(runs, refs)
+    starts = {}
+    for i, e in enumerate(lines):
+        if e.get("ev") == "Reset":
+            starts[i + 1] = e["run"]
+    bad_plans, out = set(), []
     for x in rej:
+        ev = x["event"]
+        if ev.get("ev") == "Plan":
+            bad_plans.add(ev["schema"])
+            continue
+        if ev.get("ev") == "Reset":
+            if ev["schema"] not in bad_plans:
+                raise vlib.InfraError("a run could not even start (malformed trace?): %s" % json.dumps(x)[:500])
+            out.append(dict(x, rejected=starts[x["line"]], event={"ev": "Plan", "schema": ev["schema"], "why": "not PlanOK"}))
+            continue
+        out.append(x)
+    ids = {x.id for x in runs}
+    for x in out:
         if x["rejected"] not in ids:
             raise vlib.InfraError("rejection of unknown run %r (malformed trace?): %s" % (x["rejected"], json.dumps(x)[:500]))
-    return rej, r
+    return out, r
 
 
 def make_batches(runs, plans, wd, prefix):
@@ -495,10 +643,14 @@ def classify(r, rec):
         what = "abort(sig=6):%s%s" % (r.ub["what"], (" in " + r.ub["where"]) if r.ub["where"] else "")
     elif r.ub:
         what = "%s(%s%s)" % (r.ub["kind"], r.ub["what"], (" in " + r.ub["where"]) if r.ub["where"] else "")
+    elif ev["ev"] == "Plan":
+        what = "output-calls-not-a-well-formed-emission"
     elif ev["ev"] == "exit" and ev["status"] != 0 and not rec["diag"]:
         what = "no-diag"
     elif ev["ev"] == "exit" and ev["status"] == 0:
         what = "exit0-" + ("after-failed-call" if rec["failed"] else "plan-not-finished")
+    elif ev["ev"] == "exit" and rec["nio"] > 0 and not rec["failed"]:
+        what = "exit%d-after-output-without-failed-call" % ev["status"]
     elif ev["ev"] == "exit":
         what = "exit%d-not-allowed" % ev["status"]
     elif ev["ev"] == "sys" and ev.get("cls") == "out":
@@ -620,7 +772,7 @@ def corpus_jobs():
 
 def case_record(r):
     j = r.job
-    c = {"head": j.head, "build": r.kind, "argv": [a if isinstance(a, str) else a.decode("utf-8", "backslashreplace") for a in r.argv[1:]],
+    c = {"head": j.head, "build": r.kind, "replay": "./verif replay <this file> (re-runs the case on both builds and validates the runs alone)", "argv": [a if isinstance(a, str) else a.decode("utf-8", "backslashreplace") for a in r.argv[1:]],
          "env": j.env, "exit": r.status, "signal": r.signal, "stdout": r.stdout[-800:], "stderr": r.stderr[-2500:], "left": sorted(r.tree)[:20]}
     if j.corpus:
         c["corpus"] = j.corpus[0]
@@ -640,6 +792,7 @@ def run(v, tier, seed):
     rdir = os.path.join(wd, "runs")
     bins = {"san": vlib.build_sbeppc("san"), "plain": vlib.build_sbeppc("plain")}
     sr.build_shim()
+    build_longpath()
     t_all = time.time()
 
     # ---- 1. TLC: the cases -------------------------------------------------------
@@ -668,11 +821,9 @@ def run(v, tier, seed):
         jobs += corpus_jobs()
     second_xml = sch.to_xml(gg.bases("quick")[0][1]).replace('package="c09"', 'package="c09second"')
 
-    # ---- 2. the unedited bases: reference plans (and the proof that the set-up works) ----
+    # ---- 2. the unedited bases are compiled by both builds, hook and shim are in place (else nothing below means anything) ----
     plans = {}
-    base_plan = {}
     for name in base_docs:
-        ref = None
         for kind in ("plain", "san"):
             bj = materialize(Job("base-" + name, "base/" + name, [("Base", name, "-")], base=name, case={"actions": []}), base_docs)
             r = execute(bj, kind, bins[kind], rdir, second_xml)
@@ -681,7 +832,6 @@ def run(v, tier, seed):
                     name, kind, r.status, r.signal, r.stdout[-500:], r.stderr[-1500:]))
             if not any(e.get("ev") == "phase" for e in r.logged):
                 raise vlib.InfraError("no phase markers from sbeppc: the SBEPP_VERIF hook is not in %s" % vlib.REPO)
-        base_plan[name] = True
 
     # ---- 3. every case through both builds (worker processes) ---------------------------
     t1 = time.time()
@@ -827,3 +977,46 @@ def run(v, tier, seed):
                     "Garble.tla: scope invariants model-checked, every state emitted as a case; every case run through the sanitized and the "
                     "plain sbeppc; every run validated by TLC against SbeppcTrace (normal exit, status 0 or diagnostic, no output call "
                     "unless the run succeeds, phases in order); plus the repository's test schemas as trace source")
+
+
+def replay(rp):
+    """Re-execute the case of a recorded violation on both builds and validate the two runs alone."""
+    case = rp.get("case") or {}
+    print(json.dumps({k: rp.get(k) for k in ("property", "signature")}, indent=1))
+    if "corpus" in case:
+        job = Job("replay", case["head"], [], corpus=(case["corpus"], case.get("opts", [])))
+        materialize(job, {})
+    elif "actions" in case:
+        S = dict(gg.bases("thorough")).get(case["base"])
+        if S is None:
+            print("unknown base %r" % case["base"])
+            return 2
+        job = Job("replay", case["head"], [], base=case["base"], case={"actions": case["actions"]})
+        materialize(job, {case["base"]: gg.parse(sch.to_xml(S))})
+        for a in case["actions"]:
+            print("action: %s at %s, %s; %d edit(s)" % (a["action"], a["pos"], a["lex"], len(a["edits"])))
+    else:
+        print("model-level failure (Garble.tla): re-run ./verif check C09")
+        return 1
+    wd = vlib.fresh_dir(os.path.join(vlib.WORK, "c09", "replay"))
+    keep = os.path.join(wd, "input")
+    for fn, b in job.files.items():
+        vlib.write(os.path.join(keep, fn), b, "wb")
+    print("input files kept in %s; command line: sbeppc %s" % (keep, " ".join(job.argv or ["--output-dir", "../out", "main.xml"])))
+    second_xml = sch.to_xml(gg.compact_schema()).replace('package="c09"', 'package="c09second"')
+    plans, runs = {}, []
+    for kind in ("san", "plain"):
+        r = execute(job, kind, vlib.build_sbeppc(kind), os.path.join(wd, "runs"), second_xml)
+        if r.not_run:
+            print("%s: the command line cannot be passed to a process: %s" % (kind, r.stderr))
+            continue
+        attach_plan(r, plans)
+        runs.append(r)
+        print("%s build: exit %s signal %s%s\n  stdout: %s\n  stderr: %s" % (
+            kind, r.status, r.signal, " sanitizer: %s" % json.dumps(r.ub) if r.ub else "", r.stdout[-600:], r.stderr[-1500:]))
+    rej, _ = validate(("replay", runs, plans, wd))
+    for x in rej:
+        r = [y for y in runs if y.id == x["rejected"]][0]
+        print("REJECTED by SbeppcTraceC09: %s build: %s" % (r.kind, classify(r, x)[0]))
+    print("accepted" if not rej else "rejected")
+    return 1 if rej else 0
